@@ -167,6 +167,12 @@ func IteInt(c bool, a, b int64) int64 {
 	}
 	return b
 }
+func IteF(c bool, a, b float64) float64 {
+	if c {
+		return a
+	}
+	return b
+}
 func IteBool(c bool, a, b bool) bool {
 	if c {
 		return a
